@@ -463,5 +463,5 @@ func c03ReplayAll(raw json.RawMessage) ([]string, string) {
 }
 
 func init() {
-	register("C03", &check{run: c03Run, replay: c03ReplayAll, quick: 150 * time.Second, thor: 900 * time.Second})
+	register("C03", &check{run: c03Run, replay: c03ReplayAll, quick: 240 * time.Second, thor: 900 * time.Second})
 }
